@@ -228,12 +228,28 @@ def build_cases(tier):
             for row0, isatty in itertools.product(range(5), (True, False)):
                 cases.append(dict(part="T", api="new", cls=cls, mode=mode, frames=stream, indef=True, loops=1,
                                   cache=False, size=size, pad=pad, term=(6, 5), row0=row0, isatty=isatty))
+    # relative padding dimensions whose magnitude reaches the terminal dimension: "equivalent to the absolute
+    # dimension max(terminal_dimension + relative_dimension, 1)" - the padded size is max(render, clamp)
+    clamp = [((6, 1), ("aligned", 0, -2, 1, 1, " ")), ((6, 2), ("aligned", 0, -2, 1, 1, " ")),
+             ((6, 2), ("aligned", -6, -2, 0, 0, " ")), ((3, 2), ("aligned", -4, -1, 2, 2, "")),
+             ((6, 5), ("aligned", -6, -5, 1, 1, " ")), ((6, 5), ("aligned", -9, -7, 0, 2, " ")),
+             ((6, 5), ("aligned", 4, -5, 2, 1, " ")), ((6, 5), ("aligned", -6, 3, 1, 0, " ")),
+             ((8, 7), ("aligned", -8, -7, 1, 1, " ")), ((8, 7), ("aligned", -20, -8, 1, 1, " "))]
+    for (term, pad), (cls, mode), size in itertools.product(clamp, NEW_CLS, [(1, 1), (2, 1), (2, 2), (3, 3), (7, 1)]):
+        for frames, loops, cache, animate in ((1, 1, False, True), (2, 1, False, True), (3, 2, True, True),
+                                              (2, 1, False, False)):
+            for check, allow in ((True, False), (True, True), (False, False)):
+                for row0 in sorted({0, term[1] // 2, term[1] - 1}):
+                    cases.append(dict(part="V", api="new", cls=cls, mode=mode, frames=frames, loops=loops, cache=cache,
+                                      size=size, pad=pad, term=term, row0=row0, isatty=True, check_size=check,
+                                      allow_scroll=allow, animate=animate))
     # ---- part V: new API validation table
     vt = (4, 3)
     for w, h in itertools.product(range(1, vt[0] + 2), range(1, vt[1] + 3)):
         for pad in (("exact", 0, 0, 0, 0, " "), ("exact", 1, 0, 0, 0, " "), ("exact", 0, 1, 0, 0, " "),
                     ("exact", 0, 0, 1, 1, " "), ("aligned", 0, -2, 1, 1, " "), ("aligned", vt[0] + 1, 1, 1, 1, " "),
-                    ("aligned", 1, vt[1] + 1, 1, 1, " "), ("aligned", -1, 0, 0, 0, "")):
+                    ("aligned", 1, vt[1] + 1, 1, 1, " "), ("aligned", -1, 0, 0, 0, ""),
+                    ("aligned", -vt[0], -vt[1], 1, 1, " "), ("aligned", -vt[0] - 3, 2, 0, 0, " ")):
             for check, allow in itertools.product((True, False), repeat=2):
                 for frames, animate in ((1, True), (2, True), (2, False)):
                     for cls, mode in (NEW_CLS if not quick else NEW_CLS[:1]):
